@@ -88,6 +88,10 @@ Definition node_attr (g : graph) (n : string) : option (option string) :=
 Definition is_edge (g : graph) (x n : string) : bool := has_edge (x, n) (gedges g).
 Definition in_edges (g : graph) (n : string) : list string :=
   map fst (filter (fun e => String.eqb (snd e) n) (gedges g)).
+(* G.edges() as networkx iterates them: node by node in node insertion order, the successors of a node in the order
+   in which its out-edges were added *)
+Definition nx_edges (g : graph) : list (string * string) :=
+  flat_map (fun kv => filter (fun e => String.eqb (fst e) (fst kv)) (gedges g)) (gnodes g).
 (* a node identifier that denotes a series at an offset / period: NAME[...]; function names and keywords carry no
    bracket, verbatim fragments start with a backtick *)
 Definition varlike_id (s : string) : bool := negb (head_is "`" s) && has_char "[" s.
